@@ -452,10 +452,11 @@ Proof.
   split; [exact He|]. split; [|apply NL_keys_ref; exact Hin].
   pose proof N_wf as [_ Hok]. rewrite Forall_forall in Hok. pose proof (Hok _ H) as Hk.
   unfold key_ok in Hk. cbn in Hk. apply is_cent_entity in He. destruct He as (_ & _ & He).
-  destruct k as [s|v n|i].
+  destruct k as [s|v n|i|s].
   - destruct Hk as [_ Hk]. subst s. reflexivity.
-  - destruct Hk as [Hk _]. unfold keyed in He. rewrite Hk in He. discriminate.
-  - destruct Hk as [Hk _]. unfold keyed in He. rewrite Hk, andb_false_r in He. discriminate.
+  - destruct Hk as [Hk _]. rewrite (not_keyed e) in He by auto. discriminate.
+  - destruct Hk as [Hk _]. rewrite (not_keyed e) in He by auto. discriminate.
+  - destruct Hk as [Hk _]. rewrite (not_keyed e) in He by auto. discriminate.
 Qed.
 
 Lemma N_get_some k e : od_get dkey_eqb k Nw = Some e ->
@@ -594,10 +595,11 @@ Proof.
       pose proof (O_pairs k e H) as Hin. destruct (OL_cent e Hin Ec) as (Hk & _ & _).
       pose proof O_wf as [_ W2]. rewrite Forall_forall in W2. pose proof (W2 _ H) as Hok.
       unfold key_ok in Hok. cbn in Hok. apply is_cent_entity in Ec. destruct Ec as (_ & _ & Ek).
-      destruct k as [s|v n|i]; cbn in *.
+      destruct k as [s|v n|i|s]; cbn in *.
       * destruct Hok as [_ Hok]. subst s. apply mem_str_In in Hk. congruence.
-      * destruct Hok as [Hok _]. unfold keyed in Ek. rewrite Hok in Ek. discriminate.
+      * destruct Hok as [Hok _]. rewrite (not_keyed e) in Ek by auto. discriminate.
       * discriminate.
+      * destruct Hok as [Hok _]. rewrite (not_keyed e) in Ek by auto. discriminate.
 Qed.
 
 Lemma isref_nwk k : isref k = true -> nwk k = true.
@@ -605,7 +607,7 @@ Proof. destruct k; cbn; try discriminate; reflexivity. Qed.
 
 Lemma isref_P k : isref k = true -> dmem k (dkeys P) = true.
 Proof.
-  destruct k as [s| |]; cbn; try discriminate. intros H. apply mem_str_In in H.
+  destruct k as [s| | |]; cbn; try discriminate. intros H. apply mem_str_In in H.
   apply dmem_In. apply P_key_in. exact H.
 Qed.
 
@@ -637,7 +639,7 @@ Proof.
       (assert (mem_str (c_key e) refkeys = false) as ->; [|apply IH']);
       (destruct (mem_str (c_key e) refkeys) eqn:Em; [|reflexivity]); exfalso;
       apply mem_str_In in Em; apply (H1 e (or_introl eq_refl)); try exact Ee; try exact Em;
-      unfold keyed, is_comment, is_white; rewrite Ek; reflexivity.
+      unfold keyed, is_comment, is_white, is_section; rewrite Ek; reflexivity.
 Qed.
 
 Lemma step6 : filter isref (dkeys P) = map DK refkeys.
